@@ -54,6 +54,10 @@ def gen_base(rnd):
         r = rd(2)
         sp = rnd.choice(ANC_SP)
         anc.append({"reading": r, "stem": r if isinstance(sp, dict) and "Particle" in sp else rnd.choice(KANJI), "speech": sp})
+    if std and rnd.random() < 0.5:
+        # an ancillary word written like an independent word (的/てき next to 的/まと): learned counts are kept per written form
+        for _ in range(rnd.randint(1, 2)):
+            anc.append({"reading": rd(2), "stem": rnd.choice(std)["stem"], "speech": rnd.choice([{"Affix": "Suffix"}, {"Affix": "Prefix"}, "AuxiliaryVerb", "Counter"])})
     for _ in range(rnd.randint(0, 4)):
         tankan.append({"reading": rd(2), "stem": rnd.choice(KANJI), "speech": {"Noun": "Common"}})
     # ー is not in the text format's kana class: keep base sources inside it
@@ -73,6 +77,7 @@ class HistoryRun:
         self.final = None
         self.dump_each = True
         self.dumps = []         # Verif.Dump after every request (index = request index)
+        self.init_freq_abs = []
 
     def run(self):
         wd = workdir("h")
@@ -80,6 +85,12 @@ class HistoryRun:
         try:
             d = make_dictionary(wd, [entry_line(e) for e in self.base["std"]], [entry_line(e) for e in self.base["anc"]], [entry_line(e) for e in self.base["tankan"]])
             ud = os.path.join(wd, "user")
+            if self.base.get("init_freq"):
+                # learned counts from an earlier life of the server, some of them older than the expiry period
+                os.makedirs(ud, exist_ok=True)
+                now_ms = int(time.time() * 1000)
+                self.init_freq_abs = [({"kind": c}, w, n, now_ms - age) for c, w, n, age in self.base["init_freq"]]
+                harness([{"op": "srv_freq_bin", "path": os.path.join(ud, "frequency.bin"), "entries": [[c, w, n, t] for c, w, n, t in self.init_freq_abs]}])
             srv_ = Server(d, user_dir=ud, save_seconds=1)
             if not srv_.up:
                 self.problems.append(("server does not start", srv_.logtext()))
@@ -273,14 +284,17 @@ Definition fentry_eqb (a b : context * str * (Z * Z)) : bool :=
   context_eqb (fst (fst a)) (fst (fst b)) && str_eqb (snd (fst a)) (snd (fst b)) && (fst (snd a) =? fst (snd b))%Z && (snd (snd a) =? snd (snd b))%Z.
 Definition ftable_eqb (a b : ftable) : bool :=
   Nat.eqb (length a) (length b) && forallb (fun x => existsb (fentry_eqb x) b) a && forallb (fun x => existsb (fentry_eqb x) a) b.
-Record hcase := { h_alpha : list N; h_std : list entry; h_anc : list entry; h_tankan : list entry;
+Definition with_freq (s : sstate) (f : ftable) : sstate :=
+  {| s_alpha := s_alpha s; s_std := s_std s; s_keys := s_keys s; s_anc := s_anc s; s_tankan := s_tankan s; s_freq := f; s_user := s_user s;
+     s_sessions := s_sessions s; s_next := s_next s; s_queue := s_queue s |}.
+Record hcase := { h_alpha : list N; h_std : list entry; h_anc : list entry; h_tankan : list entry; h_init_freq : ftable;
                   h_reqs : list request; h_expect : list expect;
                   h_final_freq : ftable; h_final_user : list entry; h_final_sessions : nat }.
 Definition hcheck (h : hcase) : bool :=
   match words_of (h_std h), words_of (h_anc h), words_of (h_tankan h) with
   | Ok s, Ok a, Ok t =>
     let base := init_state (h_alpha h) s a t in
-    match run base base (h_reqs h) with
+    match run base (with_freq base (h_init_freq h)) (h_reqs h) with
     | Ok (fin, resps) =>
       resps_eqb resps (h_expect h) && ftable_eqb (s_freq fin) (h_final_freq h) && entries_eqb (s_user fin) (h_final_user h)
       && Nat.eqb (length (s_sessions fin)) (h_final_sessions h)
@@ -307,7 +321,8 @@ def coq_history(hr):
         return None
     ft = clist(["(%s, %s, ((%d)%%Z, (%d)%%Z))" % (CTX_COQ[f[0]["kind"]], cstr(f[1]), f[2], f[3]) for f in hr.final["frequencies"]])
     b = hr.base
-    return ("{| h_alpha := %s; h_std := %s; h_anc := %s; h_tankan := %s; h_reqs := %s; h_expect := %s; h_final_freq := %s; h_final_user := %s; h_final_sessions := %d%%nat |}"
+    ift = clist(["(%s, %s, ((%d)%%Z, (%d)%%Z))" % (CTX_COQ[c["kind"]], cstr(w), n, t) for c, w, n, t in hr.init_freq_abs])
+    return (("{| h_alpha := %s; h_std := %s; h_anc := %s; h_tankan := %s; h_init_freq := " + ift.replace("%", "%%") + "; h_reqs := %s; h_expect := %s; h_final_freq := %s; h_final_user := %s; h_final_sessions := %d%%nat |}")
             % (cstr(ALPHABET), clist([coq_entry(e) for e in b["std"]]), clist([coq_entry(e) for e in b["anc"]]), clist([coq_entry(e) for e in b["tankan"]]),
                clist(reqs), clist(exps), ft, clist([coq_entry(u) for u in users]), hr.final["sessions"]))
 
@@ -356,7 +371,7 @@ def gen_history(rnd, length=12, with_restart=True, malformed=False, guess=True):
             nconv += 1
         elif k < 0.62 and nconv:
             reqs.append({"kind": "confirm", "session": rnd.randrange(nconv) if rnd.random() < 0.9 else None,
-                         "cid": rnd.choice(["0", "0", "0", "1", "2", "7", "00", "x", ""])})
+                         "cid": rnd.choice(["0", "0", "0", "0", "1", "1", "2", "7", "00", "x", "", "+0", "+1", "01", "000", " 0", "0 ", "-0", "1e0", "０"])})
         elif k < 0.8:
             wk = rnd.choice(["CommonNoun", "ProperNoun", "Guess"] if guess else ["CommonNoun", "ProperNoun"])
             r = "".join(rnd.choice(alpha) for _ in range(rnd.randint(1, 3)))
@@ -364,7 +379,15 @@ def gen_history(rnd, length=12, with_restart=True, malformed=False, guess=True):
             if wk == "Guess":
                 end = rnd.choice(["べない", "かない", "しない", "い", "だ", ""])
                 r, w = r + end, w + end
-            reqs.append({"kind": "register", "wkind": wk, "reading": r, "word": w})
+            prev = [q for q in reqs if q["kind"] == "register"]
+            nouns = [e for e in base["std"] if e["speech"] in ({"Noun": "Common"}, {"Noun": "Proper"})]
+            if prev and rnd.random() < 0.2:
+                reqs.append(dict(rnd.choice(prev)))                       # the same registration again
+            elif nouns and rnd.random() < 0.15:
+                e = rnd.choice(nouns)                                     # a word the system dictionary already holds
+                reqs.append({"kind": "register", "wkind": "CommonNoun" if e["speech"] == {"Noun": "Common"} else "ProperNoun", "reading": e["reading"], "word": e["stem"]})
+            else:
+                reqs.append({"kind": "register", "wkind": wk, "reading": r, "word": w})
         elif k < 0.86:
             reqs.append({"kind": "tankan", "input": rnd.choice(base["tankan"])["reading"] if base["tankan"] and rnd.random() < 0.7 else an_input()})
         elif k < 0.92:
@@ -377,4 +400,12 @@ def gen_history(rnd, length=12, with_restart=True, malformed=False, guess=True):
             nconv += 1
     if with_restart:
         reqs.insert(rnd.randint(len(reqs) // 2, len(reqs)), {"kind": "restart"})
+    if rnd.random() < 0.5:
+        # counts learned in an earlier life: (context, surface, count, age in ms); the expiry period is three days
+        DAY = 24 * 3600 * 1000
+        surf = [e["stem"] for e in base["std"]] + [e["stem"] for e in base["anc"]]
+        base["init_freq"] = [(rnd.choice(["Normal", "Normal", "ForeignWord", "Numeral", "Proper"]), rnd.choice(surf), rnd.randint(1, 6),
+                              rnd.choice([4 * DAY, 4 * DAY, 10 * DAY, 2 * DAY, 3600 * 1000, 3 * DAY + 3600 * 1000])) for _ in range(rnd.randint(1, 4))]
+        seen = set()
+        base["init_freq"] = [x for x in base["init_freq"] if (x[0], x[1]) not in seen and not seen.add((x[0], x[1]))]
     return base, reqs
